@@ -739,7 +739,8 @@ SDMX_KINDS = G.SDMX_KINDS
 @st.composite
 def st_sdmx(draw):
     return {"mol": draw(st.sampled_from(["H2", "HF", "H2O", "LiH"])),
-            "basis": draw(st.sampled_from(["sto-3g", "6-31g", "def2-svp"])),
+            # cc-pvdz: generally contracted shells (several radial functions per shell, NCTR_OF > 1)
+            "basis": draw(st.sampled_from(["sto-3g", "6-31g", "def2-svp", "cc-pvdz"])),
             "kind": draw(st.sampled_from(SDMX_KINDS)), "ngrids": draw(st.sampled_from([1, 2, 3, 5, 17, 56, 57, 130])),
             "threads": draw(THREADS), "seed": draw(SEED)}
 
